@@ -1560,6 +1560,14 @@ func sendMessages(ctx context.Context, conn net.Conn,
 		return firstMsg, errors.Wrap(ErrTimeout, "handshake")
 	}
 
+	// When the connection is shut down the handshake wait above is also released. In that case
+	// the handshake might never have completed, so nothing must be sent on this connection.
+	select {
+	case <-interrupt:
+		return firstMsg, nil
+	default:
+	}
+
 	if firstMsg != nil {
 		logger.InfoWithFields(ctx, []logger.Field{
 			logger.String("message", NameForMessageType(firstMsg.msg.Payload.Type())),
